@@ -164,33 +164,21 @@ pub struct CommandLine {
 
 impl Command {
     pub fn from_tokens(tokens: Tokens) -> Result<Command, String> {
-        let mut tokens_new = tokens.clone();
+        // input redirections (`< file`, `<<< text`) are taken out from left
+        // to right; the last one is the one that applies.
+        let mut tokens_new: Tokens = Vec::new();
         let mut redirects_from_type = String::new();
         let mut redirects_from_value = String::new();
-        let mut has_redirect_from = tokens_new.iter().any(|x| x.0.is_empty() && (x.1 == "<" || x.1 == "<<<"));
-
-        let mut len = tokens_new.len();
-        while has_redirect_from {
-            if let Some(idx) = tokens_new.iter().position(|x| x.0.is_empty() && x.1 == "<") {
-                redirects_from_type = "<".to_string();
-                tokens_new.remove(idx);
-                len -= 1;
-                if len > idx {
-                    redirects_from_value = tokens_new.remove(idx).1;
-                    len -= 1;
+        let mut iter = tokens.iter().cloned();
+        while let Some(token) = iter.next() {
+            if token.0.is_empty() && (token.1 == "<" || token.1 == "<<<") {
+                redirects_from_type = token.1;
+                if let Some(value) = iter.next() {
+                    redirects_from_value = value.1;
                 }
+                continue;
             }
-            if let Some(idx) = tokens_new.iter().position(|x| x.0.is_empty() && x.1 == "<<<") {
-                redirects_from_type = "<<<".to_string();
-                tokens_new.remove(idx);
-                len -= 1;
-                if len > idx {
-                    redirects_from_value = tokens_new.remove(idx).1;
-                    len -= 1;
-                }
-            }
-
-            has_redirect_from = tokens_new.iter().any(|x| x.0.is_empty() && (x.1 == "<" || x.1 == "<<<"));
+            tokens_new.push(token);
         }
 
         let tokens_final;
